@@ -32,6 +32,8 @@ def one(d):
         status = "correspondence-only"
     else:
         status = "failing-input"
+    if status == "NOAPPLY":
+        return cid, status, ""      # keep the record of the run on the tree it was written for
     mp = os.path.join(d, "meta.json")
     meta = json.load(open(mp)) if os.path.exists(mp) else {"change": cid, "property": prop}
     run = meta.setdefault("check_run", {})
